@@ -6,7 +6,7 @@
 //! tokens of zoo language `lang` (many grammar-directed units + one deeply nested block), one
 //! numeric token replaced at relative position `where` ∈ {start,q1,mid,q3,end,deep}.
 //! Measured on the REAL runtime: `lexed_lookahead` log events of the incremental parse, bytes handed
-//! out by the (64-byte chunked, counting) read callback, and the three internal dumps (tree before
+//! out by the (4-byte chunked, counting) read callback, and the three internal dumps (tree before
 //! the edit, edited tree, new tree) from which the Lean driver `tsv-c12` computes node sharing and
 //! evaluates the judge.
 use std::io::Write;
@@ -15,7 +15,7 @@ use std::sync::Arc;
 use tree_sitter::{LogType, Parser, Point, Tree};
 use tsv_harness::*;
 
-const CHUNK: usize = 64;
+const CHUNK: usize = 4;
 
 fn deep_block(lang: &str, depth: usize) -> String {
     match lang {
